@@ -1,4 +1,5 @@
 import XV.Model.Sched
+import XV.Gen.LockProto
 /-!
 # C12 — concurrent submissions are serialisable: conflict-free admission, no deadlock
 
@@ -1266,6 +1267,19 @@ theorem lock_fail_has_conflict (store : Nat → Nat) (reqs : List (List Item)) (
         have := ki.shared hm
         obtain ⟨u, thu, hut, hu, hh⟩ := hfind .S (by omega)
         exact ⟨u, thu, .S, hut, hu, hh, Or.inr rfl⟩
+
+/-! ## the real doTxSync follows the modelled protocol -/
+
+/-- **doTxSync_follows_protocol** — the lock protocol of the real `State.doTxSync`, re-extracted from
+state.go with go/ast on every run (`lean/XV/Gen/LockProto.lean`), is the one the model's thread programs
+follow: TryLock on the extracted keys; a DEFERRED Unlock of exactly the keys TryLock reported as taken,
+registered before the guard (so a failed TryLock releases what it took); `if !lockOK { return }` before
+the first access to shared state; all under the read side of utxo.Mutex. -/
+theorem doTxSync_follows_protocol :
+    XV.Gen.LockProto.tryLocksExtracted = true ∧ XV.Gen.LockProto.unlockWhat = "succ" ∧
+    XV.Gen.LockProto.unlockDeferred = true ∧ XV.Gen.LockProto.unlockOnFailPath = true ∧
+    XV.Gen.LockProto.guardBeforeCritical = true ∧ XV.Gen.LockProto.underReadLock = true := by
+  decide
 
 /-! ## the code before the repair violates the statement -/
 
